@@ -33,7 +33,9 @@ pub mod stdx {
   }
 
   pub mod thread {
-    pub use crate::facade::{sleep, spawn, yield_now, Builder, JoinHandle};
+    pub use crate::facade::{
+      current, park, park_timeout, sleep, spawn, yield_now, Builder, JoinHandle, Thread, ThreadId,
+    };
     pub use std::thread::*;
   }
 
